@@ -407,6 +407,7 @@ type runSpec struct {
 	BrokenSC bool                 `json:"broken_sc"`
 	BrokenPY bool                 `json:"broken_py"`
 	MaxDelay int                  `json:"max_delay_us"`
+	Cap      int                  `json:"cap"`
 	Wfs      []*wfSpec            `json:"wfs"`
 }
 
@@ -1082,6 +1083,9 @@ func genRun(r *hx.Rng, idx int, thorough bool, cap int) *runSpec {
 	}
 	rs := &runSpec{Seed: r.Next(), Sched: map[string]behaviour{}, Entry: "files"}
 	nf := 1 + r.Intn(4)
+	if cap >= 8 {
+		nf = 3 + r.Intn(4) // many CPUs: more files so that enough invocations are pending at once
+	}
 	if r.Chance(1, 8) {
 		nf = 1
 		if r.Chance(1, 2) {
@@ -1218,6 +1222,33 @@ func runPure(e *env, seed uint64, n int, thorough bool) {
 	exs = append(exs, ex{special: "signal", so: "partial"}, ex{special: "signal"}, ex{special: "nostart"}, ex{special: "sigterm", so: "x"})
 	broken := filepath.Join(e.out, "broken_tool")
 	hx.Must(os.WriteFile(broken, []byte("no program\n"), 0o755))
+	// scripts of any size: the input must reach the tool also when it is larger than a pipe buffer
+	for _, size := range []int{65536, 65537, 300000} {
+		for _, combine := range []bool{false, true} {
+			type rr struct {
+				out []byte
+				err error
+			}
+			ch := make(chan rr, 1)
+			go func() {
+				o, err := actionlint.VerifCmdExecutionRun("/bin/sh", []string{"-c", "wc -c | tr -d ' \\n'"}, strings.Repeat("x", size), combine)
+				ch <- rr{o, err}
+			}()
+			select {
+			case got := <-ch:
+				want := strconv.Itoa(size)
+				if got.err != nil || string(got.out) != want {
+					sum.OracleFails = append(sum.OracleFails, failure{What: fmt.Sprintf("a script of %d bytes did not reach the tool completely", size), Key: "exec:bigstdin", Extra: fmt.Sprint(string(got.out), got.err)})
+				} else {
+					emit(fmt.Sprintf("PCExec (OSExit 0%%Z %s)", coqStr(want)), []string{numTuple(0), bytesTuple(nil, want)})
+				}
+				sum.Dist["exec_bigstdin_ok"]++
+			case <-time.After(5 * time.Second):
+				sum.OracleFails = append(sum.OracleFails, failure{What: fmt.Sprintf("cmdExecution.run hangs on a script of %d bytes (larger than the pipe buffer): the tool never gets it and Lint* never returns", size), Key: "exec:hang:bigstdin", Extra: size})
+				sum.Dist["exec_bigstdin_hang"]++
+			}
+		}
+	}
 	for _, x := range exs {
 		for _, combine := range []bool{false, true} {
 			var out []byte
@@ -1414,6 +1445,7 @@ func main() {
 		hx.Must(err)
 		var f struct {
 			What  string   `json:"what"`
+			Key   string   `json:"key"`
 			Run   *runSpec `json:"run"`
 			First struct {
 				Run *runSpec `json:"run"`
@@ -1424,8 +1456,38 @@ func main() {
 			f.Run = f.First.Run
 		}
 		if f.Run == nil {
-			fmt.Println("REPLAY: the file names no run (pure-function failure or broken correspondence); see its 'extra' field")
-			os.Exit(1)
+			// a failure of one of the pure functions: evaluate that family again
+			// (same generators; the enumerated part does not depend on the seed)
+			dir, err := os.MkdirTemp("/var/tmp", "c20-replay-")
+			hx.Must(err)
+			defer os.RemoveAll(dir)
+			e.out = dir
+			runPure(e, *seed, 300, false)
+			var sum struct {
+				Fails []failure `json:"oracle_failures"`
+			}
+			sb, err := os.ReadFile(filepath.Join(dir, "summary.json"))
+			hx.Must(err)
+			hx.Must(json.Unmarshal(sb, &sum))
+			n := 0
+			for _, fl := range sum.Fails {
+				if f.Key == "" || fl.Key == f.Key {
+					if n < 5 {
+						fmt.Printf("%s [%s] %v\n", fl.What, fl.Key, fl.Extra)
+					}
+					n++
+				}
+			}
+			if n > 0 {
+				fmt.Println("REPLAY: property violated")
+				os.RemoveAll(dir)
+				os.Exit(1)
+			}
+			fmt.Println("REPLAY: property holds on this input")
+			return
+		}
+		if f.Run.Cap != 0 && f.Run.Cap != e.cap {
+			fmt.Fprintf(os.Stderr, "note: the run was recorded with %d CPUs, this process sees %d (use taskset)\n", f.Run.Cap, e.cap)
 		}
 		dir, err := os.MkdirTemp("/var/tmp", "c20-replay-")
 		hx.Must(err)
@@ -1475,6 +1537,7 @@ func main() {
 	maxConc := 0
 	for i := 0; i < *n; i++ {
 		rs := genRun(r, i, *tier == "thorough", e.cap)
+		rs.Cap = e.cap
 		res := execRun(e, i, rs)
 		if res.skipped != "" {
 			sum.Dist["skipped:"+res.skipped]++
